@@ -93,8 +93,9 @@ def modEntryOK (e : Gen.Entry) : Bool :=
   | [c], some b => isModTmpl c b
   | _, _ => false
 
-/-- every entry of the modifier table is as expected -/
-def ModsOK (mods : List Gen.Entry) : Prop := mods.all modEntryOK = true
+/-- every entry of the modifier table is as expected, and the eight modifiers are all there -/
+def ModsOK (mods : List Gen.Entry) : Prop :=
+  mods.all modEntryOK = true ∧ modKeys.all (fun c => (lookupEntry mods [c]).isSome) = true
 
 instance (mods : List Gen.Entry) : Decidable (ModsOK mods) := by unfold ModsOK; infer_instance
 
@@ -114,8 +115,13 @@ theorem lookupEntry_all (P : Gen.Entry → Prop) (mods : List Gen.Entry) (k : St
 
 theorem modsOK_lookup (mods : List Gen.Entry) (hM : ModsOK mods) (k : Str) (e : Gen.Entry) (h : lookupEntry mods k = some e) :
     modEntryOK e = true ∧ e.key = k := by
-  unfold ModsOK at hM
-  rw [List.all_eq_true] at hM
-  exact lookupEntry_all (fun e => modEntryOK e = true) mods k hM Option.none e (by intro e0 he0; simp at he0) h
+  have hM1 := hM.1
+  rw [List.all_eq_true] at hM1
+  exact lookupEntry_all (fun e => modEntryOK e = true) mods k hM1 Option.none e (by intro e0 he0; simp at he0) h
+
+theorem modsOK_present (mods : List Gen.Entry) (hM : ModsOK mods) (c : Nat) (hc : c ∈ modKeys) : (lookupEntry mods [c]).isSome = true := by
+  have hM2 := hM.2
+  rw [List.all_eq_true] at hM2
+  exact hM2 c hc
 
 end Vy.Sem
